@@ -106,7 +106,10 @@ def standin(tier, seed):
                     V.add("step:advances_more_than_once", case, f"{a.calc.evals - e0} calculator evaluations in one step")
     # the bound of EVERY step follows the masses in force at that step: a step, new scaling masses through the documented
     # `update_masses` (same number of atoms), another step -- on one object
+    stop = False
     for rep in range(6 if tier == "quick" else 60):
+        if stop:
+            break
         g2 = np.random.default_rng(seed + 100 + rep)
         n2 = 6
         power = (0.25, 0.5, 1.0)[rep % 3]
@@ -120,11 +123,16 @@ def standin(tier, seed):
             if stage == 2:
                 mc.update_masses(g2.uniform(1, 100, (n2, 3)))
             p0 = a.get_positions()
-            with_alarm(60, mc.step)
-            disp = a.get_positions() - p0
-            bound = 0.1 * np.power(np.min(mc.shaped_masses) / mc.shaped_masses, power)
             case = {"update_masses_between_steps": True, "stage": stage, "power": power, "seed": seed + rep}
             V.case(case)
+            try:
+                with_alarm(20, mc.step)
+            except Timeout:
+                V.add("step:does_not_terminate", case, "rejection loop still running after 20 s"); stop = True; break
+            except Exception as e:  # noqa: BLE001
+                V.add("step:raises", case, repr(e)); break
+            disp = a.get_positions() - p0
+            bound = 0.1 * np.power(np.min(mc.shaped_masses) / mc.shaped_masses, power)
             if np.any(np.abs(disp) > bound * (1 + 1e-9) + 1e-12):
                 V.add("step:bound_after_update_masses", case, f"max |disp|/bound = {np.nanmax(np.abs(disp) / bound):.4g}")
                 break
